@@ -24,4 +24,24 @@ PROPS = {
                         "Date is pinned (29-byte placeholder when the handler does not set it); Go map order canonicalised by sorting lines",
                         "io.Copy's 32 KiB chunking and Sendfile are modelled as conn writes of the same bytes"],
     },
+    "C11": {
+        "manifest": {
+            "text": "Lean theorems on length-abstracted ownership twins (ids + lengths, contents erased) of the response writer, the "
+                    "BodyReader and the parser cache: for every op sequence and every environment answer the heap with a live set "
+                    "never records a double free or use after free and owner fields never share a buffer; tied to the code by comparing "
+                    "the twin's Malloc/Append/Free/conn.Write trace with the trace of a tracking allocator installed through the public "
+                    "allocator interface (mempool.DefaultMemPool, Config.BodyAllocator); the tracker's own verdicts (poison, live set, "
+                    "recording conn) are the direct oracles",
+            "note": "HTTP side and core-conn side here; the websocket side shares harness/internal/track (props of the ws family)",
+            "technique": "Lean 4 proof (ownership invariant by induction over op sequences) + differential trace correspondence + tracking allocator"},
+        "lean": ["NbioVerif.Properties.C11"], "drivers": ["respdrv"], "harness": ["hresp"],
+        "runs": [dict(RESP_RUN, fields=["n", "err", "tr"])],
+        "oracles": ["c11-"],
+        "rule": "same stream as C09; distinct by hash of (config, op-kind sequence with conn writes per op, framing); non-trivial iff a conn "
+                "write happened before the final flush (a buffer changed hands or was flushed and reused)",
+        "assumptions": ["the tracking allocator replaces the real pool (non-recycling, poison on free, move on growth): pool-internal "
+                        "behaviour is C20's subject",
+                        "content-dependent decisions (chunked, Content-Length verdict, head length) are environment answers of the twin, "
+                        "computed by the byte-level model in the driver"],
+    },
 }
